@@ -396,4 +396,3 @@ func (t *twin) checkProofs(it *iavl.ImmutableTree, v int64, M content, H, otherR
 		}
 	})
 }
-
